@@ -97,7 +97,13 @@ AxisCoords(L, a, c, q) ==
   ELSE IF a.ind[q] \in Range(L.oi) THEN {CoordOf(L, c, a.ind[q])}
   ELSE 0..(DimOf(L, a.ind[q]) - 1)
 
-ArgBlocks(L, a, c) == {pc \in Box(a.nb) : \A q \in DOMAIN a.ind : pc[q] \in AxisCoords(L, a, c, q)}
+\* all tuples t with t[q] \in sets[q]
+RECURSIVE ProdSets(_)
+ProdSets(sets) == IF Len(sets) = 0 THEN {<<>>}
+                  ELSE {<<h>> \o t : h \in Head(sets), t \in ProdSets(Tail(sets))}
+
+\* ArgBlocks: the blocks of argument a that output block c reads
+ArgBlocks(L, a, c) == ProdSets([q \in DOMAIN a.ind |-> AxisCoords(L, a, c, q)])
 
 ArgDeps(L, a, c) == CASE a.k = "coll" -> {Key(a.name, pc) : pc \in ArgBlocks(L, a, c)}
                       [] a.k = "key"  -> {Key(a.name, <<>>)}
@@ -190,13 +196,22 @@ Den(st) == Tabs(st, 1, BaseTab(st))
 AllKeys(st) == UNION {{Key(n, c) : c \in Box(NBOf(st, n))} : n \in LeafNames(st) \cup LayerNames(st)}
                  \cup {Key(n, <<>>) : n \in ConstNames(st)}
 
+RECURSIVE ProdNB(_)
+ProdNB(nb) == IF Len(nb) = 0 THEN 1 ELSE Head(nb) * ProdNB(Tail(nb))
+RECURSIVE SumNat(_)
+SumNat(f) == IF Len(f) = 0 THEN 0 ELSE Head(f) + SumNat(Tail(f))
+\* Cardinality(AllKeys(st)), computed arithmetically
+NumKeys(st) == SumNat([i \in DOMAIN st.leaves |-> ProdNB(st.leaves[i].nb)])
+               + SumNat([i \in DOMAIN st.layers |-> ProdNB(OutNB(st.layers[i]))]) + Len(st.consts)
+
 DepsOfKey(st, k) == IF IsLayer(st, k.n) THEN Deps(LayerOf(st, k.n), k.c) ELSE {}
 
 \* Cull: least set of keys containing the request and closed under Deps
-RECURSIVE Close(_, _)
-Close(st, S) == LET S2 == S \cup UNION {DepsOfKey(st, k) : k \in S}
-                IN IF S2 = S THEN S ELSE Close(st, S2)
-Cull(st, req) == Close(st, req)
+\* (S: keys found so far, F \subseteq S: those whose dependencies have not been added yet)
+RECURSIVE Close(_, _, _)
+Close(st, S, F) == LET N == (UNION {DepsOfKey(st, k) : k \in F}) \ S
+                   IN IF N = {} THEN S ELSE Close(st, S \cup N, N)
+Cull(st, req) == Close(st, req, req)
 
 \* the contract of culling / fusion on a request: every requested key is still there and
 \* still has the value it denotes (everything else - which layers exist, which other keys
